@@ -77,6 +77,19 @@ def gen_cases(chk):
                     ps["algorithm"] = algo
                 cases.append({"fam": "set%d" % k, "policy": ps, "env": env, "entry": "set",
                               "children": [pool[i][0] for i in combo], "algo": algo})
+    # sets and two-level sets whose children carry no id (the schema does not require one)
+    noid = [{k: v for k, v in pol.items() if k != "id"} for _n, pol in pool]
+    for combo in itertools.product(range(len(pool)), repeat=2):
+        for algo in polgen.ALGOS:
+            if (combo[0] + 3 * combo[1] + len(algo) + chk.seed) % (3 if chk.tier == "quick" else 1):
+                continue
+            flat = {"algorithm": algo, "policies": [noid[combo[0]], pool[combo[1]][1]]}
+            cases.append({"fam": "set_noid", "policy": flat, "env": env, "entry": "set"})
+            for algo2 in polgen.ALGOS:
+                two = {"algorithm": algo2, "policies": [{"algorithm": algo, "policies": [noid[combo[0]]]}, pool[combo[1]][1]]}
+                cases.append({"fam": "nested_noid", "policy": two, "env": env, "entry": "set"})
+                two = {"algorithm": algo2, "policies": [pool[combo[1]][1], {"id": "inner", "algorithm": algo, "policies": [noid[combo[0]]]}]}
+                cases.append({"fam": "nested_noid", "policy": two, "env": env, "entry": "set"})
     # nested sets (depth 2 and 3) from a pool of inner sets
     inner = []
     for combo in itertools.product(range(len(pool)), repeat=2):
@@ -92,12 +105,19 @@ def gen_cases(chk):
             for _ in range(rng.choice([0, 1, 2, 2, 3])):
                 r = rng.random()
                 if d > 0 and r < 0.45:
-                    kids.append(build(d - 1))
+                    kid = build(d - 1)
                 elif r < 0.7:
-                    kids.append(rng.choice(inner))
+                    kid = rng.choice(inner)
                 else:
-                    kids.append(rng.choice(pool)[1])
+                    kid = rng.choice(pool)[1]
+                if rng.random() < 0.3:      # the schema does not require ids: children and inner sets without one
+                    kid = {k: v for k, v in kid.items() if k != "id"}
+                    if rng.random() < 0.3:
+                        kid["id"] = rng.choice([None, ""])
+                kids.append(kid)
             ps = {"id": "s%d" % rng.randrange(1000), "policies": kids}
+            if rng.random() < 0.3:
+                del ps["id"]
             a = rng.choice(polgen.ALGOS + [None, "Deny-Overrides"])
             if a is not None:
                 ps["algorithm"] = a
